@@ -156,7 +156,8 @@ func checkC11(r *Run) {
 			}
 			cl := mc.Fn.(*ssa.Function)
 			hasRecover := false
-			Instrs(cl, func(i2 ssa.Instruction) {
+			// recover() stops a panic only when called directly by the deferred function: a helper does not count
+			InstrsRaw(cl, func(i2 ssa.Instruction) {
 				if c, ok := i2.(*ssa.Call); ok {
 					if b, ok := c.Call.Value.(*ssa.Builtin); ok && b.Name() == "recover" {
 						hasRecover = true
@@ -227,10 +228,13 @@ func checkC11(r *Run) {
 	for f := range reached {
 		for _, e := range g.Out[f] {
 			if isExitSink(e.Label) {
-				n := short(f.String())
-				if _, ok := exitSite[n]; !ok {
-					exitSite[n] = e
-					exitFns = append(exitFns, n)
+				// a helper introduced by a refactoring stands for the pinned functions that call it
+				for _, pf := range P.pinnedCallersOf(f) {
+					n := short(pf.String())
+					if _, ok := exitSite[n]; !ok {
+						exitSite[n] = e
+						exitFns = append(exitFns, n)
+					}
 				}
 			}
 		}
